@@ -25,6 +25,11 @@ def ref_material(rng, name, condensed=False, scale=1.0):
     if name == "neo_hooke_compressible":
         p = dict(mu=scale * float(rng.uniform(0.5, 2)), lmbda=scale * float(rng.uniform(1, 5)))
         return fem.NeoHookeCompressible(mu=p["mu"], lmbda=p["lmbda"]), OH.energy("neo_hooke_compressible", p), p
+    if name == "linear_elastic_large_strain":
+        # documented: the compressible Neo-Hookean law with the Lame parameters of (E, nu); the conversion is the oracle's own
+        E, nu = scale * float(rng.uniform(1, 10)), float(rng.uniform(0.05, 0.45))
+        p = dict(mu=E / (2 * (1 + nu)), lmbda=E * nu / ((1 + nu) * (1 - 2 * nu)), E=E, nu=nu)
+        return fem.LinearElasticLargeStrain(E=E, nu=nu), OH.energy("neo_hooke_compressible", p), p
     if name == "ogden_roxburgh":
         # pseudo-elastic softening around a Neo-Hookean base: eta = 1 - erf((Wmax - W) / (m + beta Wmax)) / r scales the stress of
         # the base law (documented); on the primary loading path (W = Wmax) the response is that of the base material.  r, beta
@@ -105,7 +110,7 @@ def first_pk(W, F3):
     return F3 @ N @ np.diag(OH.principal_P(W, lam) / lam) @ N.T
 
 
-REF = ["neo_hooke", "neo_hooke_compressible", "mooney_rivlin", "yeoh", "ogden", "ogden_roxburgh"]
+REF = ["neo_hooke", "neo_hooke_compressible", "mooney_rivlin", "yeoh", "ogden", "ogden_roxburgh", "linear_elastic_large_strain"]
 # the tensortrax ogden model goes through tensortrax' eigvalsh, which perturbs C[0,0], C[1,1] by +-1.49e-8 (modelled, 100 x)
 REG = {"ogden": 100 * 1.4901161193847656e-08}
 
